@@ -37,6 +37,9 @@ pub struct Faults {
     /// Keyed by the exact query text without the trailing newline, e.g. `"!iAS-FOO,1"` or
     /// `"!gAS65001"`; the same query therefore fails the same way on every connection.
     pub by_query: BTreeMap<String, Fault>,
+    /// Transient faults: like `by_query`, but each entry is consumed by the FIRST occurrence of
+    /// that query on this server (on whichever connection); later occurrences are answered normally.
+    pub once: BTreeMap<String, Fault>,
     /// Nothing listens on the port: clients get ECONNREFUSED.
     pub refuse_connections: bool,
     /// Answer this many received lines per connection (the handshake lines `!!` and `!n...`
@@ -65,6 +68,7 @@ pub struct LogEntry {
 struct Shared {
     db: Db,
     faults: Faults,
+    once: Mutex<BTreeMap<String, Fault>>,
     log: Mutex<Vec<LogEntry>>,
     stop: AtomicBool,
     conns: Mutex<Vec<TcpStream>>,
@@ -87,7 +91,8 @@ impl Server {
         let listener = TcpListener::bind(("127.0.0.1", port))?;
         let port = listener.local_addr()?.port();
         let refuse = faults.refuse_connections;
-        let shared = Arc::new(Shared { db, faults, log: Mutex::default(), stop: AtomicBool::new(false), conns: Mutex::default(), next_conn: AtomicU64::new(1) });
+        let once = Mutex::new(faults.once.clone());
+        let shared = Arc::new(Shared { db, faults, once, log: Mutex::default(), stop: AtomicBool::new(false), conns: Mutex::default(), next_conn: AtomicU64::new(1) });
         if refuse {
             drop(listener); // port is now closed
             return Ok(Server { port, shared, acceptor: None });
@@ -231,7 +236,8 @@ fn join<T: ToString>(items: impl IntoIterator<Item = T>) -> String {
 }
 
 fn respond(sh: &Shared, q: &str) -> Resp {
-    if let Some(f) = sh.faults.by_query.get(q) {
+    let transient = sh.once.lock().unwrap().remove(q);
+    if let Some(f) = transient.as_ref().or_else(|| sh.faults.by_query.get(q)) {
         return match f {
             Fault::KeyNotFound => Resp::Bytes("D", b"D\n".to_vec()),
             Fault::NotUnique => Resp::Bytes("E", b"E\n".to_vec()),
